@@ -93,18 +93,19 @@ Definition stale_prog : list (bool * step) := [
 ].
 Theorem C18_refuted_schema_cache : schema_aia gen_cfg = true -> ~ history_statement gen_cfg full_dom.
 Proof.
-  intros H. apply (history_refuted_by gen_cfg full_dom stale_prog).
-  - vm_compute. reflexivity.
-  - unfold gen_cfg in *. simpl in H. unfold gen_cfg. rewrite H. vm_compute. discriminate.
+  intros H. vm_compute in H.
+  first [ discriminate H
+        | apply (history_refuted_by gen_cfg full_dom stale_prog); [vm_compute; reflexivity|vm_compute; discriminate] ].
 Qed.
 Print Assumptions C18_refuted_schema_cache.
 
 (** REFUTED (iii) at full strength: the schema lookup creates a temporary view named by a random id and never drops it *)
 Theorem C18_refuted_schema_lookup_leaves_view : schema_drops_view gen_cfg = false -> ~ readonly_statement gen_cfg readonly.
 Proof.
-  intros H.
-  apply (readonly_refuted_by gen_cfg st0 [((true, 0), mkFrame [] (SrcValues 1 1) [] [] [] 0 1 2 [2] (-1)%Z true)]
-                             (fun k => k) (true, 0) _ eq_refl eq_refl H).
+  intros H. vm_compute in H.
+  first [ discriminate H
+        | apply (readonly_refuted_by gen_cfg st0 [((true, 0), mkFrame [] (SrcValues 1 1) [] [] [] 0 1 2 [2] (-1)%Z true)]
+                                     (fun k => k) (true, 0) _ eq_refl eq_refl); vm_compute; reflexivity ].
 Qed.
 Print Assumptions C18_refuted_schema_lookup_leaves_view.
 
